@@ -52,7 +52,8 @@ def materialise(hist):
         elif k == 'GS': segs.append(['GS', 'HC'] + (['S', 'R'] if len(ev) < 3 else ['S2', 'R2']) + ['20040608', '1333', fmt_id('GS', ev[1]), 'X', '004010X098A1'])
         elif k == 'ST': segs.append(['ST', '837' if len(ev) < 3 else '835', fmt_id('ST', ev[1])])
         elif k == 'X': segs.append(['REF', 'A', 'B'])
-        elif k == 'XB': segs.append(['REFX', 'A', 'B'])       # a body segment whose identifier is not well formed: still a segment of the set
+        elif k == 'XB': segs.append(['REFX', 'A', 'B'])
+        elif k in ('LS', 'LE'): segs.append([k, '2120'])     # bounded-loop markers: ordinary segments for the counts
         elif k == 'CLM': segs.append(['CLM', 'A', '1'])
         elif k == 'LX': segs.append(['LX', ev[1]])
         elif k == 'HL': segs.append(['HL', ev[1], ev[2], '20', '1'])
@@ -78,7 +79,7 @@ def alphabet_narrow():
     evs = []
     for i in (1, 2):
         evs += [('ISA', i), ('GS', i), ('ST', i)]
-    evs += [('X',), ('XB',), ('HL', '1', ''), ('HL', '2', '1')]
+    evs += [('X',), ('XB',), ('LS',), ('LE',), ('HL', '1', ''), ('HL', '2', '1')]
     for k in ('SE', 'GE', 'IEA'):
         for c in ('ok', '+1'):
             for i in ('own', 'other'):
